@@ -27,6 +27,7 @@ PROPERTY = {
         "maxi/mini/round are not generated (their documentation and NumPy stand-ins disagree on arity / tie rule)",
     ],
 }
+PROPERTY["rule"] += ' Arm special_names: a parameter/state/input whose NAME has another meaning in the tool chain (70 names: sympy constants, singletons, function classes, generator-internal names) - the model is refused with an exception, or the name denotes the declared variable (its value enters the equation and follows the argument of that name).'
 
 RTOL, ATOL = 1e-9, 1e-12
 
